@@ -26,14 +26,17 @@ import (
 func TestMain(m *testing.M) {
 	// failing handshakes (e.g. wrong UDP secret) end after this instead of the 30 s default
 	socketace.HandshakeTimeout = 8 * time.Second
+	// the platform's own trust store holds one CA that no endpoint is configured with: "chains to the configured CA"
+	// then differs observably from "chains to some CA this machine trusts"
+	vlib.InstallPlatformTrust()
 	vlib.Main(m)
 }
 
 type caseDesc struct {
 	Carrier    string `json:"carrier"`     // tcp+tls, https, tcp, http, udp, dns (the last four: StartTLS)
-	ServerCert string `json:"server_cert"` // match, wronghost, untrusted, expired
+	ServerCert string `json:"server_cert"` // match, wronghost, untrusted, expired, platform (valid and matching, but issued by a CA of the platform trust store)
 	Insecure   bool   `json:"client_insecure"`
-	ClientCert string `json:"client_cert"` // none, own, foreign, foreign-presented (foreign CA with the subject of the server's CA, so that the client really sends it), own-expired
+	ClientCert string `json:"client_cert"` // none, own, foreign, platform (issued by a CA of the platform trust store), foreign-presented (foreign CA with the subject of the server's CA, so that the client really sends it), own-expired
 	Require    bool   `json:"require_client_cert"`
 	Host       string `json:"host_spelling"` // localhost, 127.0.0.1 (dns: example.org)
 	// Secret (udp only): the endpoint is in addition protected by a shared secret, equal on both ends; certificates
@@ -94,6 +97,8 @@ func runCase(d caseDesc) (established bool, targetBytes int, problem string, inc
 		cfg.ClientCert = &pki.ClientShadow
 	case "own-expired":
 		cfg.ClientCert = &pki.ClientExpired
+	case "platform":
+		cfg.ClientCert = &pki.ClientPlatform
 	}
 	var p *vlib.Pair
 	var err error
@@ -160,6 +165,11 @@ func allCases(withDNS bool) []caseDesc {
 								out = append(out, caseDesc{Carrier: car, ServerCert: sc, Insecure: ins, ClientCert: cc, Require: req, Host: host, Bundle: true})
 							}
 						}
+					}
+					if host == "localhost" && sc == "match" {
+						// peers vouched for by the platform's trust store instead of the configured CA
+						out = append(out, caseDesc{Carrier: car, ServerCert: "platform", Insecure: ins, ClientCert: "none", Host: host})
+						out = append(out, caseDesc{Carrier: car, ServerCert: sc, Insecure: ins, ClientCert: "platform", Require: true, Host: host})
 					}
 					if host == "(none)" {
 						// the host-less spelling is about the server certificate only
